@@ -386,7 +386,7 @@ def run_property(prop, tier, seed):
     # for a model); the others are listed in the evidence
     for h in sorted(violations, key=lambda x: results[x].duration_s)[:2]:
         r = results[h]
-        src, vecs = kani.concrete_playback(h)
+        src, vecs = kani.concrete_playback(h, timeout=max(1200, cfg.get("timeout", 900) + 300))
         native = {}
         reproduced = None
         stubbed = any(h.startswith(pre) for pre in cfg.get("stubbed_prefixes", []))
@@ -402,7 +402,9 @@ def run_property(prop, tier, seed):
                     rep, detail = common.sys_replay(name)
                     native["system:" + name] = {"reproduced": rep, "detail": detail}
         path = common.save_replay(prop, h, r.failed_checks, vecs, src, native)
-        if reproduced or (vecs is not None and (stubbed or not cfg.get("native_replay", False))):
+        # harnesses with stubbed callees cannot be replayed natively: the solver's verdict (the failed
+        # checks, listed in the replay file) is what is reported, with or without extracted values
+        if reproduced or stubbed or (vecs is not None and not cfg.get("native_replay", False)):
             confirmed.append((h, path))
         else:
             unreproduced.append((h, path))
